@@ -10,6 +10,7 @@ import (
 	"fmt"
 	"os"
 	"runtime"
+	"runtime/pprof"
 	"strings"
 
 	"github.com/CrowdStrike/csproto"
@@ -229,6 +230,285 @@ func (w *W) checkC05(t *gcore.Type, id string, c *dynamicpb.Message) {
 	}
 }
 
+// decodeGen runs the generated Unmarshal on a private copy of b into x and reads the tree back.
+func (w *W) decodeGen(t *gcore.Type, x any, b []byte) (tree *dynamicpb.Message, err error, panicked string) {
+	in := append([]byte{}, b...)
+	panicked = guard(func() { err = x.(unmarshaler).Unmarshal(in) })
+	if panicked != "" || err != nil {
+		return nil, err, panicked
+	}
+	tree, terr := gcore.TreeOf(t, x)
+	if terr != nil {
+		return nil, nil, "reading the struct back: " + terr.Error()
+	}
+	return tree, nil, ""
+}
+
+// prepopulated returns a struct that already holds other content (and a primed size cache).
+var preTrees = map[*gcore.Type]*dynamicpb.Message{}
+
+func prepopulated(t *gcore.Type) any {
+	c := preTrees[t]
+	if c == nil {
+		sp := gcore.Specials(t.RefDesc())
+		c = sp[len(sp)-1].Msg
+		gcore.FillRequired(c)
+		preTrees[t] = c
+	}
+	x, perr := build(t, c)
+	if perr != "" {
+		return t.New()
+	}
+	_ = guard(func() { _ = x.(sizer).Size() })
+	return x
+}
+
+func (w *W) checkC06(t *gcore.Type, id string, c *dynamicpb.Message) {
+	for _, v := range variants(t.RefDesc(), c, 1) {
+		ref, rerr := refDecode(t, v.b)
+		if rerr != nil {
+			w.sh.Internal("variant generator produced bytes the reference rejects: %s %s %s: %v (%x)", t, id, v.name, rerr, v.b)
+			continue
+		}
+		vid := id + "/" + v.name
+		for dst := 0; dst < 2; dst++ {
+			var x any
+			if dst == 0 {
+				x = t.New()
+			} else {
+				x = prepopulated(t)
+			}
+			w.evals++
+			tree, err, pan := w.decodeGen(t, x, v.b)
+			cls := classOfVariant(v.name)
+			switch {
+			case pan != "":
+				w.failV(t, "C06/Unmarshal-panic", id, cls, vid, pan, v.b)
+			case err != nil:
+				w.failV(t, "C06/Unmarshal-error-on-valid-encoding", id, cls, vid, err.Error(), v.b)
+			default:
+				if df := gcore.Diff(ref, tree); df != "" {
+					o := "C06/differs-from-reference"
+					if dst == 1 {
+						o = "C06/result-depends-on-previous-destination-content"
+						if f, _, _ := w.decodeGen(t, t.New(), v.b); f != nil && gcore.Diff(ref, f) != "" {
+							o = "C06/differs-from-reference"
+						}
+					}
+					w.failV(t, o, id, cls, vid, df, v.b)
+				} else {
+					w.nontr++
+				}
+			}
+		}
+	}
+}
+
+// classOfVariant maps a variant name to its shape class (part of the failure signature).
+func classOfVariant(name string) string {
+	if i := strings.LastIndex(name, ">"); i >= 0 {
+		return "nested>" + classOfVariant(name[i+1:])
+	}
+	if i := strings.Index(name, ":"); i >= 0 && !strings.HasPrefix(name, "oneof:") {
+		n := name[i+1:]
+		if j := strings.Index(n, "@"); j >= 0 {
+			n = n[:j]
+		}
+		return n
+	}
+	if strings.HasPrefix(name, "perm") {
+		return "permutation"
+	}
+	if strings.HasPrefix(name, "unknown") {
+		return "unknown-field"
+	}
+	if strings.HasPrefix(name, "oneof:") {
+		return "oneof-two-members"
+	}
+	return name
+}
+
+func shapeSpecific(cls string) bool {
+	for strings.HasPrefix(cls, "nested>") {
+		cls = cls[len("nested>"):]
+	}
+	switch cls {
+	case "dup-key", "dup-key-within-entry", "empty-entry", "key-only", "value-only", "value-key", "unknown-in-entry",
+		"twice", "split-in-two", "full-then-empty", "empty-then-full":
+		return true
+	}
+	return false
+}
+
+func (w *W) failV(t *gcore.Type, oracle, caseID, cls, vid, msg string, b []byte) {
+	// the signature names oracle, runtime, message and the encoding-shape class (the template snippet at fault);
+	// field and value are in the case id / replay file
+	sig := fmt.Sprintf("%s/%s/%s.%s/%s", oracle, t.RT, t.File, t.Name, fieldsOf(caseID))
+	if shapeSpecific(cls) {
+		// the wire shape itself identifies the snippet at fault (map-entry decoding, duplicated message field)
+		sig = fmt.Sprintf("%s/%s/%s", oracle, t.RT, cls)
+	}
+	w.sh.Fail(sig, t.String()+"/"+vid, map[string]any{"type": t.String(), "case": vid, "msg": msg, "bytes": hexs(b)})
+}
+
+// checkC07: unknown fields survive Unmarshal -> Marshal, Size accounts for them, second round trip is a fixed point.
+func (w *W) checkC07(t *gcore.Type, id string, c *dynamicpb.Message) {
+	for _, v := range variants(t.RefDesc(), c, 1) {
+		if !strings.Contains(v.name, "unknown") {
+			continue
+		}
+		ref, rerr := refDecode(t, v.b)
+		if rerr != nil {
+			continue
+		}
+		vid := id + "/" + v.name
+		cls := classOfVariant(v.name)
+		x := t.New()
+		w.evals++
+		var err error
+		in := append([]byte{}, v.b...)
+		if p := guard(func() { err = x.(unmarshaler).Unmarshal(in) }); p != "" || err != nil {
+			continue // C06/C08's business
+		}
+		var out []byte
+		var sz int
+		if p := guard(func() { sz = x.(sizer).Size(); out, err = x.(marshaler).Marshal() }); p != "" || err != nil {
+			w.failV(t, "C07/Marshal-after-Unmarshal-fails", id, cls, vid, fmt.Sprint(p, err), v.b)
+			continue
+		}
+		if sz != len(out) {
+			w.failV(t, "C07/Size-differs-from-len(Marshal)-with-unknown-fields", id, cls, vid, fmt.Sprintf("Size=%d len=%d", sz, len(out)), v.b)
+		}
+		back, berr := refDecode(t, out)
+		if berr != nil {
+			w.failV(t, "C07/re-marshaled-bytes-rejected-by-reference", id, cls, vid, berr.Error(), out)
+			continue
+		}
+		if !bytes.Equal(ref.GetUnknown(), back.GetUnknown()) {
+			w.failV(t, "C07/unknown-fields-not-preserved", id, cls, vid, fmt.Sprintf("input unknown=%x re-marshaled unknown=%x", []byte(ref.GetUnknown()), []byte(back.GetUnknown())), v.b)
+			continue
+		}
+		if df := gcore.Diff(ref, back); df != "" {
+			w.failV(t, "C07/known-fields-changed", id, cls, vid, df, v.b)
+			continue
+		}
+		// fixed point
+		y := t.New()
+		var out2 []byte
+		in2 := append([]byte{}, out...)
+		if p := guard(func() {
+			if err = y.(unmarshaler).Unmarshal(in2); err == nil {
+				out2, err = y.(marshaler).Marshal()
+			}
+		}); p != "" || err != nil {
+			w.failV(t, "C07/second-round-trip-fails", id, cls, vid, fmt.Sprint(p, err), out)
+			continue
+		}
+		if !multiEntryMap(ref) && !bytes.Equal(out, out2) {
+			w.failV(t, "C07/second-round-trip-not-a-fixed-point", id, cls, vid, fmt.Sprintf("%s vs %s", hexs(out), hexs(out2)), out)
+			continue
+		}
+		if len(ref.GetUnknown()) > 0 {
+			w.nontr++
+		}
+	}
+}
+
+// checkC10: after a default-mode Unmarshal the message must not depend on the caller's buffer.
+func (w *W) checkC10(t *gcore.Type, id string, c *dynamicpb.Message) {
+	vs := variants(t.RefDesc(), c, 0)
+	pick := []variant{vs[0]}
+	for _, v := range vs {
+		if v.name == "unknown-all-kinds-interleaved" {
+			pick = append(pick, v)
+		}
+	}
+	for _, v := range pick {
+		if len(v.b) == 0 {
+			continue
+		}
+		x := t.New()
+		in := append([]byte{}, v.b...)
+		var err error
+		w.evals++
+		if p := guard(func() { err = x.(unmarshaler).Unmarshal(in) }); p != "" || err != nil {
+			continue
+		}
+		before, terr := gcore.TreeOf(t, x)
+		if terr != nil {
+			continue
+		}
+		snapshot := gcore.ToDyn(t.RefDesc(), before) // deep copy (Copy clones bytes)
+		copyExts(snapshot, before)
+		for _, pattern := range []byte{0xFF, 0x00} {
+			for i := range in {
+				if pattern == 0xFF {
+					in[i] = ^v.b[i]
+				} else {
+					in[i] = 0
+				}
+			}
+			after, terr := gcore.TreeOf(t, x)
+			if terr != nil {
+				w.failV(t, "C10/message-unreadable-after-buffer-overwrite", id, classOfVariant(v.name), id+"/"+v.name, terr.Error(), v.b)
+				break
+			}
+			if df := gcore.Diff(snapshot, after); df != "" {
+				w.failV(t, "C10/message-changed-when-input-buffer-was-overwritten", id, classOfVariant(v.name), id+"/"+v.name, df, v.b)
+				break
+			}
+		}
+		// recycle the buffer for a different decode
+		other := t.New()
+		copy(in, v.b)
+		for i := range in {
+			in[i] = 0
+		}
+		_ = guard(func() { _ = other.(unmarshaler).Unmarshal(in[:0]) })
+		if after, terr := gcore.TreeOf(t, x); terr == nil {
+			if df := gcore.Diff(snapshot, after); df != "" {
+				w.failV(t, "C10/message-changed-when-input-buffer-was-reused", id, classOfVariant(v.name), id+"/"+v.name, df, v.b)
+			} else if hasVarLen(snapshot) {
+				w.nontr++
+			}
+		}
+	}
+}
+
+func copyExts(dst, src protoreflect.Message) {
+	src.Range(func(fd protoreflect.FieldDescriptor, v protoreflect.Value) bool {
+		if fd.IsExtension() {
+			if fd.Message() != nil && !fd.IsList() {
+				nm := dynamicpb.NewMessage(fd.Message())
+				gcore.Copy(nm, v.Message())
+				dst.Set(fd, protoreflect.ValueOfMessage(nm))
+			} else if !fd.IsList() {
+				if b, ok := v.Interface().([]byte); ok {
+					dst.Set(fd, protoreflect.ValueOfBytes(append([]byte{}, b...)))
+				} else {
+					dst.Set(fd, v)
+				}
+			}
+		}
+		return true
+	})
+}
+
+func hasVarLen(m protoreflect.Message) bool {
+	found := len(m.GetUnknown()) > 0
+	m.Range(func(fd protoreflect.FieldDescriptor, v protoreflect.Value) bool {
+		switch fd.Kind() {
+		case protoreflect.StringKind, protoreflect.BytesKind, protoreflect.MessageKind:
+			found = true
+		}
+		if fd.IsMap() {
+			found = true
+		}
+		return !found
+	})
+	return found
+}
+
 func initialized(m proto.Message) bool { return proto.CheckInitialized(m) == nil }
 
 // cases enumerates the value trees of one type for the tier.
@@ -274,6 +554,11 @@ func (w *W) selfCheck(t *gcore.Type, id string, c *dynamicpb.Message) bool {
 }
 
 func worker(sh *ev.Shard, prop string) {
+	if pf := os.Getenv("VERIF_PROF"); pf != "" && sh.Index == 3 {
+		f, _ := os.Create(pf)
+		pprof.StartCPUProfile(f)
+		defer pprof.StopCPUProfile()
+	}
 	w := &W{sh: sh, prop: prop}
 	types := gcore.Types()
 	task := 0
@@ -305,6 +590,12 @@ func worker(sh *ev.Shard, prop string) {
 				}
 			case "C05":
 				w.checkC05(t, c.ID, c.Msg)
+			case "C06":
+				w.checkC06(t, c.ID, c.Msg)
+			case "C07":
+				w.checkC07(t, c.ID, c.Msg)
+			case "C10":
+				w.checkC10(t, c.ID, c.Msg)
 			}
 			if w.sample < 2 && task%97 == 0 {
 				w.sample++
@@ -314,6 +605,7 @@ func worker(sh *ev.Shard, prop string) {
 	}
 	sh.Count("evals", w.evals)
 	sh.Count("nontrivial", w.nontr)
+	pprof.StopCPUProfile()
 	sh.Done()
 }
 
